@@ -405,6 +405,15 @@ def run_case(case):
             bad = list(lst)
             bad[-1] = gen.rand_table(rng, shape, nfields=1, names=[lst[0].dtype.names[0]])
             probe.attempt(nu.combine_fields, bad)        # shared name
+            # a shorter array that NumPy would broadcast into the first: one row, 0-d, one row of a 2-d table, one
+            # row after none
+            first = lst[0] if lst[0].size > 1 else gen.rand_table(rng, (3,), nfields=1, names=[pool[used + 1]])
+            for short in ((1,), (), first.shape[-1:] if first.ndim > 1 else (1,) * (first.ndim + 0)):
+                if int(np.prod(short, dtype=int)) == first.size:
+                    continue
+                probe.attempt(nu.combine_fields, [first, gen.rand_table(rng, short, nfields=1, names=[pool[used]])])
+            probe.attempt(nu.combine_fields, [first[:0], gen.rand_table(rng, (1,), nfields=1, names=[pool[used]])])
+            probe.attempt(nu.combine_fields, [gen.rand_table(rng, (1,), nfields=1, names=[pool[used]]), first])
             # the same number of records arranged differently: (2,3) with (3,2), (6,) with (2,3), (4,) with (2,2)
             sa, sb = [((2, 3), (3, 2)), ((6,), (2, 3)), ((2, 3), (6,)), ((4,), (2, 2)), ((2, 2), (4,))][int(rng.integers(0, 5))]
             probe.attempt(nu.combine_fields, [gen.rand_table(rng, sa, nfields=2, kinds=KINDS, names=pool[:2], maxsub=2),
